@@ -34,6 +34,31 @@ Proof.
 Qed.
 
 (* ---------------- boolean oracle = declarative Prop ---------------- *)
+Lemma agg_commit_ok_ok : forall h v, agg_commit_ok h v = true <-> valid_aggregate_commit h v.
+Proof.
+  intros h v. unfold agg_commit_ok, valid_aggregate_commit.
+  destruct (N.eqb_spec (b_len (h_agg_bits h)) 0) as [Eb|Eb];
+  destruct (N.eqb_spec (b_len (h_agg_sig h)) 0) as [Es|Es]; cbn [andb orb].
+  - destruct (N.eqb_spec (h_agg_height h) (ve_mh_cert v)) as [Eh|Eh].
+    + split; auto.
+    + split; [discriminate|]. intros [[_ [_ H]]|[H _]]; congruence.
+  - split; [discriminate|]. intros [[_ [H _]]|[H _]]; congruence.
+  - split; [discriminate|]. intros [[H _]|[_ [H _]]]; congruence.
+  - destruct (N.leb_spec (h_agg_height h) (ve_mh_cert v)) as [E1|E1].
+    { split; [discriminate|]. intros [[H _]|[_ [_ [H _]]]]; [congruence|lia]. }
+    destruct (N.ltb_spec (ve_mh_precommit v) (h_agg_height h)) as [E2|E2].
+    { split; [discriminate|]. intros [[H _]|[_ [_ [_ [H _]]]]]; [congruence|lia]. }
+    destruct (ve_next_params v) as [np|].
+    + destruct (N.ltb_spec (sub32 np 1) (h_agg_height h)) as [E3|E3].
+      { split; [discriminate|]. intros [[H _]|[_ [_ [_ [_ [H _]]]]]]; [congruence|]. specialize (H np eq_refl). lia. }
+      rewrite andb_true_iff. split.
+      * intros [H1 H2]. right. repeat split; auto. intros np' Hn; inversion Hn; subst; auto.
+      * intros [[H _]|[_ [_ [_ [_ [_ [H1 H2]]]]]]]; [congruence|auto].
+    + rewrite andb_true_iff. split.
+      * intros [H1 H2]. right. repeat split; auto. discriminate.
+      * intros [[H _]|[_ [_ [_ [_ [_ [H1 H2]]]]]]]; [congruence|auto].
+Qed.
+
 Lemma assigned_generator_b_ok : forall v h, assigned_generator_b v h = true <-> assigned_generator v h.
 Proof.
   intros v h; unfold assigned_generator_b, assigned_generator. rewrite andb_true_iff.
@@ -56,7 +81,7 @@ Theorem valid_block_b_ok : forall tip b p v x, valid_block_b tip b p v x = true 
 Proof.
   intros tip b p v x; unfold valid_block_b, valid_block; cbv zeta.
   rewrite !andb_true_iff, !N.eqb_eq, !beq_eq, N.ltb_lt, !N.leb_le, negb_true_iff,
-          assigned_generator_b_ok, execution_ok_b_ok, forallb_Forall_true.
+          assigned_generator_b_ok, execution_ok_b_ok, forallb_Forall_true, agg_commit_ok_ok.
   tauto.
 Qed.
 
@@ -83,7 +108,7 @@ Lemma verify_block_none : forall tip b v,
   (slot_of v (h_timestamp (b_header b)) <=? slot_of v (ve_now v)) = true /\
   (slot_of v (h_timestamp tip) <? slot_of v (h_timestamp (b_header b))) = true /\
   assigned_generator_b v (b_header b) = true /\
-  (h_mhp (b_header b) =? ve_node_mhp v) = true /\ ve_contradicting v = false /\ ve_agg_ok v = true /\ ve_sig_ok v = true.
+  (h_mhp (b_header b) =? ve_node_mhp v) = true /\ ve_contradicting v = false /\ agg_commit_ok (b_header b) v = true /\ ve_sig_ok v = true.
 Proof.
   intros tip b v; unfold verify_block, assigned_generator_b.
   destruct (h_version _ =? 2); cbn; [|split; [discriminate|intuition congruence]].
@@ -103,7 +128,7 @@ Proof.
   destruct (beq g _); cbn; [|split; [discriminate|intuition congruence]].
   destruct (h_mhp _ =? _); cbn; [|split; [discriminate|intuition congruence]].
   destruct (ve_contradicting v); cbn; [split; [discriminate|intuition congruence]|].
-  destruct (ve_agg_ok v); cbn; [|split; [discriminate|intuition congruence]].
+  destruct (agg_commit_ok (b_header b) v); cbn; [|split; [discriminate|intuition congruence]].
   destruct (ve_sig_ok v); cbn; [|split; [discriminate|intuition congruence]].
   tauto.
 Qed.
@@ -187,7 +212,8 @@ Theorem accepted_is_append : forall s b p v x, fst (receive s b p v x) = Accepte
                  ++ (if n_finalized s <? xe_post_precommit x
                      then [PFinalize (n_finalized s) (xe_post_precommit x) (h_id (b_header b))] else [])
                  ++ [PNew (h_id (b_header b)) (xe_nevents x)]
-                 ++ (if xe_params_changed x then [PValidators] else []).
+                 ++ (if xe_params_changed x then [PValidators] else []) /\
+  n_app s' = h_stateroot (b_header b).
 Proof.
   intros s b p v x. unfold receive, process_validated.
   destruct (block_validate b p); cbn; [discriminate|].
@@ -234,7 +260,7 @@ Proof.
   unfold delete_tip. rewrite Er.
   destruct (_ <=? _); [discriminate|]. destruct (de_lookup_ok _); [|discriminate]. destruct (de_abi_revert_ok _); [|discriminate].
   destruct rest as [|r0 rest]; [discriminate|]. cbn [negb fst snd].
-  set (s1 := mkNode _ _ _ _).
+  set (s1 := mkNode _ _ _ _ _).
   pose proof (reject_no_change_pv s1 b v x) as Hrej.
   destruct (process_validated s1 b v x) as [[|r1|] s2] eqn:E1; try discriminate.
   cbn in Hrej. rewrite (Hrej ltac:(discriminate)).
